@@ -388,6 +388,11 @@ def once_parts(rng):
                 plan.append(["f"])
                 return "random()"
             lo, hi = r.randint(-5, 5), r.randint(6, 50)
+            kk = r.random()
+            if kk < 0.12:
+                hi = lo                      # single-value range: still one occurrence, one draw
+            elif kk < 0.2:
+                hi = lo + 1
             plan.append(["i", lo, hi])
             return "randint(%d, %d)" % (lo, hi)
 
